@@ -197,6 +197,21 @@ class Check:
         self.analysed['call_sites'] += calls
 
 
+def unlisted(chk):
+    """obligations of the run that failed and are not listed known findings (same matching as `finish`)"""
+    known = load_known()
+    known_keys = {k['key']: k for k in known if k.get('property') == chk.pid and k.get('status') == 'known'}
+    out = []
+    for o in chk.obligations:
+        if o['status'] == 'ok':
+            continue
+        k = known_keys.get(o['key'])
+        if k is not None and ('detail' not in k or k['detail'] == (o['detail'] or '')):
+            continue
+        out.append(o)
+    return out
+
+
 def finish(chk, level='proof', explanation=None, assumptions=None):
     """Apply known findings, write evidence + report, print verdict lines, return exit code."""
     known = load_known()
@@ -206,7 +221,10 @@ def finish(chk, level='proof', explanation=None, assumptions=None):
     new_viol = []
     known_hit = []
     for o in viol:
-        if o['key'] in known_keys:
+        k = known_keys.get(o['key'])
+        # a known finding is identified by the obligation AND by what exactly fails there: any other failure under the
+        # same obligation (a different detail) is a new violation
+        if k is not None and ('detail' not in k or k['detail'] == (o['detail'] or '')):
             known_hit.append(o)
         else:
             new_viol.append(o)
@@ -262,8 +280,12 @@ def finish(chk, level='proof', explanation=None, assumptions=None):
             fh.write('KNOWN key=%s\n   %s\n   %s\n' % (o['key'], o['desc'], o['detail']))
     for o in known_hit:
         print('KNOWN-FINDING: property=%s %s -- %s' % (chk.pid, o['key'], known_keys[o['key']].get('what', o['desc'])))
+    import re as _re
     for k in known_keys:
         if k not in [o['key'] for o in known_hit]:
+            m_ = _re.search(r'\[([a-z-]+)\]', k)
+            if m_ and m_.group(1) not in chk.analysed['configs']:
+                continue      # a finding of a feature configuration this tier does not analyse
             print('note: known finding %s did not reproduce on this tree (stale entry?)' % k)
     print('%s [%s]: %d obligations, %d discharged, %d known, %d violations; %d functions, %d paths, configs=%s, %.1fs'
           % (chk.pid, chk.tier, n_ob, n_ok, len(known_hit), len(new_viol), len(chk.analysed['functions']),
